@@ -306,34 +306,47 @@ def _inside_escape(s, k):
             i += 1
     return False
 
+def render_plain(stmts):
+    """exactly the model's print_dyndep (checked against `dyndep_run print` in check())"""
+    o = [b'ninja_dyndep_version = 1\n']
+    for st in stmts:
+        l = b'build ' + esc_path(st.out)
+        if st.imp_outs: l += b' |' + b''.join(b' ' + esc_path(x) for x in st.imp_outs)
+        l += b': dyndep'
+        if st.imp_ins: l += b' |' + b''.join(b' ' + esc_path(x) for x in st.imp_ins)
+        o.append(l + b'\n')
+        if st.restat: o.append(b'  restat = 1\n')
+    return b''.join(o)
+
 def render(rnd, stmts, fancy):
-    nl = b'\r\n' if fancy and rnd.random() < 0.15 else b'\n'
-    sp = (lambda: b' ' * rnd.choice([1, 1, 1, 2, 3])) if fancy else (lambda: b' ')
-    osp = (lambda: b' ' * rnd.choice([0, 0, 1, 2])) if fancy else (lambda: b'')
+    if not fancy: return render_plain(stmts)
+    nl = b'\r\n' if rnd.random() < 0.15 else b'\n'
+    sp = lambda: b' ' * rnd.choice([1, 1, 1, 2, 3])
+    osp = lambda: b' ' * rnd.choice([0, 0, 1, 2])
     lines = []
     def pipe_then(x):
         # "|@" and "||" are tokens of their own: keep a blank before a name that starts with '@'
         return b'|' + (b' ' if x[:1] in (b'@', b'|') else osp()) + x
     def junk():
-        if fancy and rnd.random() < 0.2:
+        if rnd.random() < 0.2:
             lines.append(rnd.choice([b'', b'# comment', b'   ', b'  # indented comment', b'#']) + nl)
     junk()
-    ver = rnd.choice([b'1', b'1', b'1.0', b'1.0', b'1.0.7', b'1.0-x', b'01', b'1.', b'$ 1', b'+1', b'1x']) if fancy else b'1'
+    ver = rnd.choice([b'1', b'1', b'1.0', b'1.0', b'1.0.7', b'1.0-x', b'01', b'1.', b'$ 1', b'+1', b'1x'])
     lines.append(b'ninja_dyndep_version' + osp() + b'=' + osp() + ver + nl)
     junk()
     for st in stmts:
-        l = b'build' + sp() + spell(rnd, st.out, fancy)
-        if st.imp_outs or (fancy and rnd.random() < 0.1):
-            l += osp() + pipe_then(sp().join(spell(rnd, x, fancy) for x in st.imp_outs))
+        l = b'build' + sp() + spell(rnd, st.out, True)
+        if st.imp_outs or rnd.random() < 0.1:
+            l += osp() + pipe_then(sp().join(spell(rnd, x, True) for x in st.imp_outs))
         l += osp() + b':' + osp() + b'dyndep'
-        if st.imp_ins or (fancy and rnd.random() < 0.1):
-            l += osp() + pipe_then(sp().join(spell(rnd, x, fancy) for x in st.imp_ins))
+        if st.imp_ins or rnd.random() < 0.1:
+            l += osp() + pipe_then(sp().join(spell(rnd, x, True) for x in st.imp_ins))
         l += osp()
         lines.append(l + nl)
-        if fancy and rnd.random() < 0.08: lines.append(b'# a comment before the binding' + nl)
+        if rnd.random() < 0.08: lines.append(b'# a comment before the binding' + nl)
         if st.restat:
-            lines.append(sp() + b'restat' + osp() + b'=' + osp() + (rnd.choice([b'1', b'0', b'yes', b'$$', b'a b:c|d']) if fancy else b'1') + nl)
-        elif fancy and rnd.random() < 0.15:
+            lines.append(sp() + b'restat' + osp() + b'=' + osp() + rnd.choice([b'1', b'0', b'yes', b'$$', b'a b:c|d']) + nl)
+        elif rnd.random() < 0.15:
             lines.append(sp() + b'restat' + osp() + b'=' + osp() + rnd.choice([b'', b'$x', b'${y}']) + nl)
         junk()
     return b''.join(lines)
@@ -522,6 +535,15 @@ def check(seed=1, n=20000):
             stats['trunc_' + ('accepted' if cls == 'OK' else 'rejected')] += 1
         if cls not in samples: samples[cls] = (tag, manifest_text(cases[i][1]), cases[i][3])
         if a != b: mm('load', i, a, b)
+    # the model's printer renders what the generator's plain rendering fed to the real code
+    pi = [i for i, c in enumerate(cases) if c[0] == 'valid']
+    def sl(st): return '%s/%s/%s/%d' % (hx(st.out), ','.join(hx(x) for x in st.imp_outs) or '-', ','.join(hx(x) for x in st.imp_ins) or '-', 1 if st.restat else 0)
+    po = _run(model, 'print', [' '.join(sl(st) for st in cases[i][4]) or ' ' for i in pi]) if pi else []
+    for k, i in enumerate(pi):
+        stats['printer_cases'] += 1
+        w = po[k].split()
+        if w[0] != hx(cases[i][3]) or w[1] != '1' or w[2] != '1':
+            mm('printer: print_dyndep differs from the generator rendering / not well-formed / no round trip', i, hx(cases[i][3]), po[k])
     # the manifest-level meaning, for the valid-by-construction files
     vi = [i for i, c in enumerate(cases) if c[4] is not None]
     inl_i = []; inl_m = []
